@@ -25,7 +25,12 @@ where
 
     fn try_from(bytes: UintRef<'a>) -> der::Result<Uint<LIMBS>> {
         let mut array = Array::default();
-        let offset = array.len().saturating_sub(bytes.len().try_into()?);
+        // an integer with more significant octets than `Self` does not fit: report it instead of
+        // letting `copy_from_slice` panic on the length mismatch
+        let offset = array
+            .len()
+            .checked_sub(bytes.len().try_into()?)
+            .ok_or_else(|| Self::TAG.length_error())?;
         array[offset..].copy_from_slice(bytes.as_bytes());
         Ok(Uint::from_be_byte_array(array))
     }
